@@ -44,7 +44,11 @@ def pooled_combinators(job):
         except Exception as e:  # noqa — the combinator cannot be driven outside optimize() any more (a refactor of the pooled branch): the probe cannot vouch for it
             out["probe_broken"] = f"_greedy_select_population({m}): {type(e).__name__}: {e}"
             return out
-        res[m] = sorted((int(a.position[0]), bits(a.cost)) for a in opt._population)
+        try:
+            res[m] = sorted((int(a.position[0]), bits(a.cost)) for a in opt._population)
+        except Exception as e:  # noqa — what the combinator left in the population are not agents (under the probe's own pool): the probe cannot vouch for it
+            out["probe_broken"] = f"_greedy_select_population({m}) left a population that is not a list of agents: {type(e).__name__}: {e}"
+            return out
         if m != "serial":
             out["greedy_log"] = list(pool.POOL_LOG)
             out["greedy_order"] = [int(a.position[0]) for a in opt._population]
@@ -64,8 +68,12 @@ def pooled_combinators(job):
     except Exception as e:  # noqa
         out["gen"] = {"raised": f"{type(e).__name__}: {e}"}
         return out
-    out["gen"] = {"asked": job["n"] + 3, "got": len(agents), "distinct": len({tuple(a.position) for a in agents}), "log": [(a, b) for a, b, _ in pool.POOL_LOG],
-                  "in_bounds": all(-5.0 <= a.position[0] <= 5.0 and 0.0 <= a.position[1] <= 1.0 for a in agents)}
+    try:
+        out["gen"] = {"asked": job["n"] + 3, "got": len(agents), "distinct": len({tuple(a.position) for a in agents}), "log": [(a, b) for a, b, _ in pool.POOL_LOG],
+                      "in_bounds": all(-5.0 <= a.position[0] <= 5.0 and 0.0 <= a.position[1] <= 1.0 for a in agents)}
+    except Exception as e:  # noqa — what came back are not agents
+        out["gen"] = {"raised": f"not-a-list-of-agents: {type(e).__name__}: {e}"}
+        return out
     # ---- two consecutive pooled rounds vs the same two rounds in serial mode from the same seed (`generatePooled_perm`: each pooled round = the serial round
     #      up to order — the random stream is consumed by the parent, whatever the mode and the worker count)
     rounds = {}
@@ -144,6 +152,13 @@ def run(ctx):
         j["pool_perm"] = rng.choice([None, rng.randrange(10 ** 6), rng.randrange(10 ** 6)])
         if j["mode"] == "thread" and rng.random() < 0.5:
             j["delay"] = rng.choice([0.0005, 0.002])       # injected per-evaluation delay (seconds, jittered): evaluations overlap in time
+    # more workers than agents (idle workers, batches that cannot all be filled): every class once, in thread mode
+    wj = jobs.make_jobs(rng, names, ["cont-sym", "cont"], 1, modes=("thread",), max_cycles_choices=(2,), trace_events=True)
+    for j in wj:
+        j["workers"] = optimizers.CFGS[j["name"]][1]["population_size"] + rng.choice([1, 5, 7])
+        j["pool_perm"] = None
+        j["kind"] = j["kind"] + "+more-workers-than-agents"
+    js += wj
     # a fifth of the pooled runs use an instance that has just solved ANOTHER task (other objective, shifted bounds) in the same pooled mode:
     # whatever the workers are handed must belong to the run in progress
     for j in rng.sample(js, len(js) // 5):
